@@ -263,7 +263,13 @@ func VerifC06_BooleanUnknown() {
 	u1, u2 := ast.Context().Access("b"), ast.Context().Access("r").Access("f")
 	known := ast.Context().Access("k").LessThan(ast.Long(c))
 	var n ast.Node
-	switch vrt.Choice("form", 10) {
+	switch vrt.Choice("form", 13) {
+	case 10: // the whole clause body is the unknown (when / unless must keep their polarity)
+		n = u1
+	case 11:
+		n = u2
+	case 12:
+		n = ast.IfThenElse(ast.True(), u1, ast.False())
 	case 0:
 		n = u1.And(known)
 	case 1:
